@@ -12,6 +12,8 @@ import (
 // Tournament world: real tables that follow the regulator's instructions, as the repo's own tests do.
 
 type World struct {
+	buf           []string // the caller's message buffer, re-used for every call that carries names
+	ghosts        int
 	prop          string
 	props         map[string]bool
 	r             reg.Regulator
@@ -173,6 +175,23 @@ func (w *World) observable() string {
 	return sb.String()
 }
 
+// callerBuffer: the names go to the regulator in a buffer the caller owns and re-uses for its next
+// message (a chunked reader, a pooled slice). Once the call has returned the regulator must not depend on it.
+func (w *World) callerBuffer(names []string) []string {
+	w.buf = append(w.buf[:0], names...)
+	return w.buf
+}
+
+func (w *World) reuseBuffer() {
+	for i := range w.buf {
+		w.ghosts++
+		w.buf[i] = fmt.Sprintf("not-a-player-%d", w.ghosts)
+	}
+	if len(w.buf) > 0 {
+		w.rep.Inc("class_caller_buffer_reused")
+	}
+}
+
 // deliverPending hands delayed releases to the regulator (all of them, or each with probability 1/2)
 func (w *World) deliverPending(all bool) {
 	var keep []pendingRelease
@@ -186,9 +205,10 @@ func (w *World) deliverPending(all bool) {
 		}
 		w.rep.Inc("releases")
 		w.trace = append(w.trace, fmt.Sprintf("release(%s,%d)", pr.id, len(pr.players)))
-		if err := w.r.ReleasePlayers(pr.id, pr.players); err != nil && w.on("C09") {
+		if err := w.r.ReleasePlayers(pr.id, w.callerBuffer(pr.players)); err != nil && w.on("C09") {
 			w.fail("C09/release-refused", "op=release", err.Error())
 		}
+		w.reuseBuffer()
 	}
 	w.pending = keep
 }
@@ -294,7 +314,8 @@ func (w *World) add(n int) {
 	w.rep.Inc("world_steps")
 	if w.status == 2 {
 		before := w.observable()
-		err := w.r.AddPlayers(ps)
+		err := w.r.AddPlayers(w.callerBuffer(ps))
+		w.reuseBuffer()
 		if w.on("C09") {
 			w.rep.Inc("class_registration_after_deadline")
 			if err == nil {
@@ -314,7 +335,8 @@ func (w *World) add(n int) {
 	}
 	w.nAlive += n
 	w.initialAlloc = w.status != 0 && w.nextT == 0
-	err := w.r.AddPlayers(ps)
+	err := w.r.AddPlayers(w.callerBuffer(ps))
+	w.reuseBuffer()
 	w.initialAlloc = false
 	if err != nil && w.on("C09") {
 		w.fail("C09/registration-refused", "op=add", err.Error())
@@ -462,9 +484,10 @@ func (w *World) sync(id string, out int) bool {
 	if len(released) > 0 || broken {
 		w.rep.Inc("releases")
 		w.trace = append(w.trace, fmt.Sprintf("release(%s,%d)", id, len(released)))
-		if err := w.r.ReleasePlayers(id, released); err != nil && w.on("C09") {
+		if err := w.r.ReleasePlayers(id, w.callerBuffer(released)); err != nil && w.on("C09") {
 			w.fail("C09/release-refused", "op=release", err.Error())
 		}
+		w.reuseBuffer()
 		if broken && w.on("C20") {
 			q := reg.VerifWaitingQueue(w.r)
 			for _, p := range released {
